@@ -98,6 +98,20 @@ func headOf(t *Term) string {
 // RunE1 evaluates obligations (and the guarantees owned by the property) and reports.
 func RunE1(c *Ctx, prop string, obs []Ob) {
 	e := c.e1()
+	// obligations owned by another property whose clause this property states as well
+	{
+		seen := map[string]bool{}
+		merged := []Ob{}
+		for _, o := range append(append([]Ob{}, obs...), sharedObs[prop]...) {
+			k := o.ID + "|" + o.Fn + "|" + o.Pat
+			if seen[k] {
+				continue
+			}
+			seen[k] = true
+			merged = append(merged, o)
+		}
+		obs = merged
+	}
 	// guarantees owned by this property are verified as obligations on success returns
 	for _, g := range allGuars {
 		if g.Prop != prop && !contains(guarAlso[g.Fn], prop) {
